@@ -72,6 +72,11 @@ CLAIMED["C12"] = (
     COMMON_TRUST + " The reflective TLS decoder is represented by assumed postconditions (decoded MerkleTreeLeaf: selected variant pointers set); encoding/json, base64, net/http and ctxhttp.Do are assumed to write only through the destination they are given; x509.ParsePKIXPublicKey is assumed to return a well-formed key. TemporalLogClient.GetAcceptedRoots (goroutines, channel) is outside the generator's subset and not covered. Cryptographic validity of an accepted signature is C05's subject.",
 )
 
+CLAIMED["C05"] = (
+    "Deductive proof that tls.VerifySignature passes exactly when the primitive for the declared signature algorithm accepts (rsa.VerifyPKCS1v15; dsa.Verify / ecdsa.Verify on a DER pair that decoded and whose r and s are both positive) for the given key, over the digest of exactly the given data under the crypto hash selected by the declared hash code (only the six TLS hashes), and that a key type not matching the declared algorithm, an unknown algorithm or an unsupported hash is an error before any primitive is called; the SCT and STH verifiers pass exactly when that holds over the RFC 6962 signature input of the object (serialisers proved in C04); NewSignatureVerifier returns a verifier holding exactly the given key, refuses RSA below 2048 bits and ECDSA off P-256 unless AllowVerificationWithNonCompliantKeys was set, and refuses every other key type; NewFromSignedJSON parses nothing unless the SHA-256 signature with the key type's algorithm verifies over exactly the list bytes; ctutil.VerifySCT(WithVerifier) verify the leaf built from the chain at the SCT timestamp.",
+    COMMON_TRUST + " The cryptographic primitives (crypto/rsa, crypto/dsa, crypto/ecdsa, hash.Hash) are external: their calls appear as sites whose arguments are proved and whose verdict is taken as the definition of 'cryptographically valid'; crypto.Hash.New is assumed non-nil (all six hashes are linked in by blank imports); after a successful asn1.Unmarshal into dsaSig both integers are assumed non-nil; keys are assumed well-formed objects (validKey: typed-nil key pointers are excluded by precondition). Bit-level mutation statements of the property follow from the primitives' behaviour, which is not modelled.",
+)
+
 NOT_YET = "contracts for this property are not yet discharged by the generator in this revision; no other technique is substituted"
 NOT_APPLICABLE = {}
 
